@@ -92,6 +92,14 @@ pub fn run(ctx: &Ctx) -> i32 {
             let mut e = Envelope::new("s"); if with_good { e = e.add_attachment("ok", "v1", None) }
             let e = e.add_assertion_envelope(m.clone()).unwrap();
             let cid = format!("malformed/{name}/good{}", with_good as u8);
+            for fv in [None, Some("v1"), Some("v2"), Some("v3")] { for fc in [None, Some("c1"), Some("c2"), Some("c3")] {
+                acc.inc("filter_queries");
+                match catch(|| (e.attachments_with_vendor_and_conforms_to(fv, fc).is_ok(), e.attachment_with_vendor_and_conforms_to(fv, fc).is_ok())) {
+                    Ok((false, false)) => {}
+                    Ok(_) => acc.viol(format!("C19|malformed|filter|{name}|accepted"), "a malformed attachment assertion is present but a filtered query did not report it", format!("{cid}/filter-{fv:?}-{fc:?}"), json!({"envelope": crate::report::ff(&e), "vendor": fv, "conformsTo": fc})),
+                    Err(p) => acc.viol(format!("C19|malformed|filter|panic|{}", p.site), p.msg.clone(), format!("{cid}/filter-{fv:?}-{fc:?}"), json!({})),
+                }
+            } }
             for (q, r) in [("attachments", catch(|| e.attachments().map(|v| v.len()))), ("filtered", catch(|| e.attachments_with_vendor_and_conforms_to(Some("v1"), None).map(|v| v.len()))), ("single", catch(|| e.attachment_with_vendor_and_conforms_to(Some("v1"), Some("c1")).map(|_| 1)))] {
                 match r { Err(p) => acc.viol(format!("C19|malformed|{q}|panic|{}", p.loc), p.msg.clone(), cid.clone(), json!({"envelope": crate::report::ff(&e)})), Ok(Ok(n)) => acc.viol(format!("C19|malformed|{q}|{name}|accepted"), format!("a malformed attachment assertion was not reported ({n} returned)"), cid.clone(), json!({"envelope": crate::report::ff(&e)})), Ok(Err(_)) => {} }
             }
